@@ -59,6 +59,12 @@ func finish(o *Outcome, w *World) *Outcome {
 		o.Stats[k] = v
 	}
 	o.Log = w.Sim.Log
+	if w.Sim.BudgetExhausted {
+		// a run that hit the step budget decides nothing
+		o.Inconclusive = "step budget exhausted"
+		o.Violation, o.Sig, o.Detail = "", "", ""
+		o.Nontrivial = false
+	}
 	return o
 }
 
